@@ -185,3 +185,92 @@ func H_factory() {
 	}
 	symx.Reach("end")
 }
+
+// H_pair_two: two instantiations of a class with TWO type parameters alive at once (every
+// combination of arguments, including permutations of each other): each member of each
+// instance enforces the argument written at its own position of its own instantiation.
+func H_pair_two() {
+	pool := []int{0, 1, 3} // int, string, U
+	a, b := pool[symx.Choose("A", 3)], pool[symx.Choose("B", 3)]
+	c, d := pool[symx.Choose("C", 3)], pool[symx.Choose("D", 3)]
+	inst := symx.Choose("instance", 2)
+	member := symx.Choose("member", 2)
+	kind := pool[symx.Choose("kind", 3)]
+	w := symx.Int("w")
+	src := "class U {}\nclass Pair<K, V> { public K $k; public V $val; }\n"
+	src += "$x = new Pair<" + typeArgs[a] + ", " + typeArgs[b] + ">();\n$y = new Pair<" + typeArgs[c] + ", " + typeArgs[d] + ">();\n"
+	// both instances are used (with valid values) before the probe
+	src += "$x->k = " + valueExprs[a] + "; $y->val = " + valueExprs[d] + ";\n"
+	v := []string{"$x", "$y"}[inst]
+	m := []string{"k", "val"}[member]
+	src += "try { " + v + "->" + m + " = " + valueExprs[kind] + "; mark(1); } catch (Throwable $e) { mark(0); }\n"
+	s := sx.Compile(src)
+	symx.Assert(s.Err == nil, "history parses")
+	if s.Err != nil {
+		return
+	}
+	_, ctl := s.Run(sx.Bind{Name: "pw", V: sx.Int(w)})
+	symx.Assert(ctl == nil && len(sx.Log) == 1, "history runs")
+	if ctl != nil || len(sx.Log) != 1 {
+		return
+	}
+	want := [][]int{{a, b}, {c, d}}[inst][member]
+	got := sx.Log[0].Kind == 'M' && sx.Log[0].I == 1
+	symx.Assert(got == (kind == want), "a member of a two-parameter instantiation enforces the argument at its own position")
+	symx.Reach("end")
+}
+
+// H_member_forms: the ways a member can be declared with the type parameter: plain typed
+// property, nullable property, promoted constructor property (written through the constructor
+// and through the property), method parameter, nullable method parameter.
+func H_member_forms() {
+	a := symx.Choose("A", 4)
+	form := symx.Choose("form", 6)
+	kind := symx.Choose("kind", 5) // 4 = null
+	w := symx.Int("w")
+	exprs := append(append([]string{}, valueExprs...), "null")
+	src := "class U {}\nclass Box<T> { public T $v; public ?T $n = null;\n  function __construct(public T $p = null) { }\n  function set(T $x) { return 1; }\n  function opt(?T $x) { return 1; } }\n"
+	src += "$b = new Box<" + typeArgs[a] + ">();\n"
+	stmt := []string{
+		"$b->v = VALUE;",
+		"$b->n = VALUE;",
+		"$c = new Box<" + typeArgs[a] + ">(VALUE);",
+		"$b->p = VALUE;",
+		"$b->set(VALUE);",
+		"$b->opt(VALUE);",
+	}[form]
+	for i := 0; i+5 <= len(stmt); i++ {
+		if stmt[i:i+5] == "VALUE" {
+			stmt = stmt[:i] + exprs[kind] + stmt[i+5:]
+			break
+		}
+	}
+	src += "try { " + stmt + " mark(1); } catch (Throwable $e) { mark(0); }\n"
+	s := sx.Compile(src)
+	symx.Assert(s.Err == nil, "history parses")
+	if s.Err != nil {
+		return
+	}
+	_, ctl := s.Run(sx.Bind{Name: "pw", V: sx.Int(w)})
+	symx.Assert(ctl == nil && len(sx.Log) == 1, "history runs")
+	if ctl != nil || len(sx.Log) != 1 {
+		return
+	}
+	nullable := form == 1 || form == 5
+	want := kind == a || (kind == 4 && nullable)
+	got := sx.Log[0].Kind == 'M' && sx.Log[0].I == 1
+	known, id := false, ""
+	switch {
+	case nullable && kind != 4:
+		// `?T` is parsed as "nullable class named T": it is never bound to the type argument
+		known, id = true, "C19-nullable-type-parameter"
+	case form == 2 || form == 3:
+		known, id = true, "C19-promoted-constructor-property"
+	case (form == 4 || form == 2) && kind == 4:
+		// null into a non-nullable typed parameter: the recorded C07 finding, not a C19 matter
+		symx.Reach("end")
+		return
+	}
+	symx.AssertKnown(got == want, "member form "+string(rune('0'+form))+": accepted iff the value has this instance's type argument", known, id)
+	symx.Reach("end")
+}
